@@ -268,7 +268,19 @@ pub fn n10(a: u64, b: u64) -> u64 { trait Policy { fn pick(&self, q: &VecDeque<u
 pub fn n11(a: u64, b: u64) -> u64 { fn with_entry<R>(m: &mut HashMap<String, u64>, k: &str, f: impl FnOnce(Option<&mut u64>) -> R) -> R { f(m.get_mut(k)) } let mut m: HashMap<String, u64> = HashMap::new(); m.insert("a".into(), a % 9); let r1 = with_entry(&mut m, "a", |e| e.map(|v| { *v += 1; *v }).unwrap_or(0)); let r2 = with_entry(&mut m, "zz", |e| e.is_none()); m.entry("a".to_string()).and_modify(|v| *v *= 2).or_insert(7); m.entry("b".to_string()).and_modify(|v| *v *= 2).or_insert(b % 5); r1 + r2 as u64 * 100 + m["a"] * 1000 + m["b"] * 100000 }
 pub fn n12(a: u64, b: u64) -> u64 { let v = seq(a, b); let mut it = v.iter().peekable(); let mut groups = 0; let mut longest = 0; while let Some(x) = it.next() { let mut run = 1; while it.next_if(|y| **y >= *x).is_some() { run += 1; } groups += 1; longest = longest.max(run); } groups * 10 + longest }
 
+// ======================================================================== sixth batch: shapes of larger refactorings
+pub fn p01(a: u64, b: u64) -> u64 { struct Lowest<K> { best: Option<(K, u64)> } impl<K: Clone> Lowest<K> { fn new() -> Self { Lowest { best: None } } fn offer(&mut self, k: &K, score: u64) { if self.best.as_ref().map_or(true, |(_, s)| score < *s) { self.best = Some((k.clone(), score)); } } fn into_key(self) -> Option<K> { self.best.map(|(k, _)| k) } } fn lowest_by<K: Clone>(keys: &[K], score_of: impl Fn(usize, &K) -> u64) -> Option<K> { let mut l = Lowest::new(); for (i, k) in keys.iter().enumerate() { l.offer(k, score_of(i, k)); } l.into_key() } let ks = seq(a, b); let total = ks.len(); lowest_by(&ks, |i, k| (total - i) as u64 * (k % 4)).unwrap_or(99) + lowest_by(&ks, |_, k| *k).unwrap_or(0) * 100 }
+pub fn p02(a: u64, b: u64) -> u64 { use std::ops::Deref; fn behind<P: Deref>(p: &P, f: impl Fn(&P::Target) -> u64) -> u64 { 8 + f(p.deref()) } let bx = Box::new(seq(a, b)); let rc = Rc::new((a % 7, b % 7)); let ar = Arc::new(format!("s{}", a % 100)); behind(&bx, |v| v.len() as u64) + behind(&rc, |t| t.0 + t.1) * 100 + behind(&ar, |s| s.len() as u64) * 10000 }
+pub fn p03(a: u64, b: u64) -> u64 { trait Weigh { fn weigh(&self) -> usize; } impl Weigh for u64 { fn weigh(&self) -> usize { 8 } } impl Weigh for String { fn weigh(&self) -> usize { 24 + self.len() } } impl<T: Weigh> Weigh for Option<T> { fn weigh(&self) -> usize { 1 + self.as_ref().map_or(0, T::weigh) } } impl<T: Weigh> Weigh for Vec<T> { fn weigh(&self) -> usize { 24 + self.iter().map(T::weigh).sum::<usize>() } } let v: Vec<Option<String>> = vec![Some(format!("k{}", a % 10)), None, Some("xy".to_string())]; (v.weigh() + seq(a, b).weigh() * 1000 + opt(b).weigh() * 1000000) as u64 }
+pub fn p04(a: u64, b: u64) -> u64 { fn admit<'a>(m: &'a parking_lot::Mutex<VecDeque<u64>>, x: u64) -> parking_lot::MutexGuard<'a, VecDeque<u64>> { let mut g = m.lock(); if let Some(p) = g.iter().position(|y| *y == x) { g.remove(p); } g.push_back(x); g } let m = parking_lot::Mutex::new(dq(a, b)); let n = { let mut g = admit(&m, 9); while g.len() > 4 { if g.pop_front().is_none() { break; } } g.len() as u64 }; let free = m.try_lock().is_some(); let last = m.lock().back().copied().unwrap_or(0); n + free as u64 * 10 + last * 100 }
+pub fn p05(a: u64, b: u64) -> u64 { fn lookup(m: &HashMap<u64, (u64, u64)>, k: u64, now: u64) -> Result<u64, Option<u64>> { let e = m.get(&k).ok_or(None)?; if now - e.1 >= 3 { return Err(Some(e.1)); } Ok(e.0) } let m: HashMap<u64, (u64, u64)> = seq(a, b).into_iter().enumerate().map(|(i, x)| (x, (x * 2, i as u64))).collect(); let x = match lookup(&m, a % 7, 5) { Ok(v) => v, Err(None) => 100, Err(Some(t)) => 200 + t }; let y = match lookup(&m, 77, 5) { Ok(_) => 1, Err(None) => 2, Err(Some(_)) => 3 }; x + y * 1000 }
+pub fn p06(a: u64, b: u64) -> u64 { #[derive(Clone, Copy, PartialEq)] enum Pol { Fifo, Lru, Lfu, Arc } trait Book { fn counts(&self) -> bool; fn tracks(&self) -> bool; fn of(n: u64) -> Self; } impl Book for Pol { fn counts(&self) -> bool { matches!(self, Pol::Lfu | Pol::Arc) } fn tracks(&self) -> bool { matches!(self, Pol::Lru | Pol::Arc) } fn of(n: u64) -> Self { [Pol::Fifo, Pol::Lru, Pol::Lfu, Pol::Arc][(n % 4) as usize] } } let p = Pol::of(a); let (r, f) = match p { Pol::Fifo => (false, false), Pol::Lru => (true, false), Pol::Lfu => (false, true), Pol::Arc => (true, true) }; (p.counts() == f) as u64 + (p.tracks() == r) as u64 * 10 + (Pol::of(b) == p) as u64 * 100 }
+pub fn p07(a: u64, b: u64) -> u64 { let mut order = names(a, b); let doomed: Vec<String> = order.iter().filter(|k| k.ends_with('9') || k.ends_with('4')).cloned().collect(); let mut pending: HashSet<&str> = doomed.iter().map(String::as_str).collect(); order.retain(|k| !pending.remove(k.as_str())); order.len() as u64 * 10 + pending.len() as u64 + order.iter().filter(|k| doomed.contains(k)).count() as u64 * 100 }
+pub fn p08(a: u64, b: u64) -> u64 { const TABLE: [(&str, u64); 4] = [("fifo", 0), ("lru", 1), ("lfu", 2), ("arc", 3)]; let name = ["lru", "ARC", "nope", "fifo"][(a % 4) as usize].to_lowercase(); let v = TABLE.iter().find(|(n, _)| *n == name).map_or(1, |(_, v)| *v); let ks = seq(a, b); let w: u64 = ks.iter().zip(1usize..).map(|(k, pos)| k * pos as u64).sum(); let first_big = ks.iter().zip(1u64..).find(|(k, _)| **k > 5).map_or(0, |(_, pos)| pos); v + w * 10 + first_big * 100000 }
+pub fn p09(a: u64, b: u64) -> u64 { let v = seq(a, b); let r = v.iter().copied().reduce(|x, y| if y < x { y } else { x }).unwrap_or(0); let fm: u64 = v.iter().flat_map(|x| opt(*x)).sum(); let keep = opt(a).filter(|x| *x > 4).is_none(); let mut i = 0; let mut acc = 0; while i < v.len() { let step = { acc += v[i]; acc < 20 }; if !step { break; } i += 1; } r + fm * 10 + keep as u64 * 10000 + i as u64 * 100000 }
+pub fn p10(a: u64, b: u64) -> u64 { #[derive(Debug)] enum Victim { Keyed(String), At(usize), Front } fn pick(q: &VecDeque<String>, mode: u64) -> Option<Victim> { match mode { 0 => (!q.is_empty()).then_some(Victim::Front), 1 => q.iter().position(|k| k.ends_with('9')).map(Victim::At), _ => q.iter().min().cloned().map(Victim::Keyed) } } fn evict(v: Victim, q: &mut VecDeque<String>) -> bool { match v { Victim::Front => q.pop_front().is_some(), Victim::At(i) if i < q.len() => q.remove(i).is_some(), Victim::At(_) => false, Victim::Keyed(k) => { let n = q.len(); q.retain(|x| *x != k); q.len() < n } } } let mut q = names(a, b); let done = pick(&q, a % 3).map_or(false, |v| evict(v, &mut q)); let again = loop { match pick(&q, 1) { Some(v) => { if !evict(v, &mut q) { break false; } } None => break true } }; done as u64 + again as u64 * 10 + q.len() as u64 * 100 }
+
 macro_rules! table4 { ($($n:literal => $f:ident),* $(,)?) => {
     pub fn run4(n: u32, a: u64, b: u64) -> Option<u64> { match n { $($n => Some($f(a, b)),)* _ => None } }
 } }
-table4! { 401 => l01, 402 => l02, 403 => l03, 404 => l04, 405 => l05, 406 => l06, 407 => l07, 408 => l08, 409 => l09, 410 => l10, 501 => n01, 502 => n02, 503 => n03, 504 => n04, 505 => n05, 506 => n06, 507 => n07, 508 => n08, 509 => n09, 510 => n10, 511 => n11, 512 => n12 }
+table4! { 401 => l01, 402 => l02, 403 => l03, 404 => l04, 405 => l05, 406 => l06, 407 => l07, 408 => l08, 409 => l09, 410 => l10, 501 => n01, 502 => n02, 503 => n03, 504 => n04, 505 => n05, 506 => n06, 507 => n07, 508 => n08, 509 => n09, 510 => n10, 511 => n11, 512 => n12, 601 => p01, 602 => p02, 603 => p03, 604 => p04, 605 => p05, 606 => p06, 607 => p07, 608 => p08, 609 => p09, 610 => p10 }
